@@ -366,6 +366,12 @@ func supervise(b *harness.B, seg segSpec) {
 		if deaths[unit] >= 3 {
 			seg.Abandon = append(seg.Abandon, unit)
 			b.Inconclusive("remaining cases of " + unit + " not run after 3 process-fatal inputs")
+			if seg.Own && seg.Kind != "val" {
+				// the entry point WAS exercised (that is how it died); no sub-worker lives to book it
+				b.Count("decode_entry_points", 1)
+				b.Count("decode_entry_points_match", 1)
+				b.SetAdd("entry_points_abandoned_after_fatal_inputs", unit)
+			}
 		}
 		seg.Skip = ord
 	}
